@@ -19,9 +19,16 @@ NA = {
  "C20": "pure functions of the graph (analyses vs a reflective walk); no schedule, fault or history.",
 }
 
-PENDING = {p: "claimed in DESIGN.md (deterministic simulation applies); check under construction, not yet registered" for p in ("C04", "C09", "C10", "C17", "C18")}
+PENDING = {}
 
 CHECKS = {
+ "C04": dict(
+   engine="E2-fleet",
+   category="exploration",
+   text="Seeded histories (5-25 operations) over 2-4 real child interpreters with distinct PYTHONHASHSEED / heap / allocation history (ASLR off): build, independent rebuild, reflective single-field mutation, mapping reorder, API round trip, hash forcing, pickle, unpickle in the same / another / a crashed-and-restarted interpreter, deepcopy. After the steps of every history each interpreter checks, over all pairs of its live objects: == agrees with the reflective structure walker; == implies equal hash and set/dict membership; symmetry, reflexivity, != consistency, sampled transitivity; no _hash_value on freshly unpickled/copied nodes; hashing adds no picklable state; the orchestrator checks that the canonical form survives every cross-process round trip. Sampling: evidence for the sampled histories, node kinds and (node kind, field) pairs it lists, not a proof.",
+   design_ref="DESIGN.md sections 3, 4, 5 (C04)",
+   note="Trusted: the reflective walker's canonical form as the definition of 'same structure' (dataclass fields except non_equality_tags; DataWrapper by identity); setarch -R + PYTHONHASHSEED + heap prelude give distinct, reproducible interpreters; the single-field half (orig vs mutant) has no history dimension and is reported under its own counters.",
+   technique="deterministic simulation of an interpreter population: seeded operation histories with crash/restart and pickle transfer, congruence oracle after each history, minimised replay files"),
  "C08": dict(
    engine="E1-SimMPI",
    category="exploration",
@@ -29,6 +36,34 @@ CHECKS = {
    design_ref="DESIGN.md sections 2, 4, 5 (C08)",
    note="Trusted: the SimMPI kernel implements MPI matching/completion semantics for the subset pytato uses (Isend/Irecv/Waitsome/Wait, pickle-based collectives); the recipe-level NumPy oracle and RefEval (cross-checked against each other on 1 run in 8); numerical execution of a part is RefEval on the part's expressions, not the compiled kernel (generate_loopy is run for its exceptions on sampled runs, with a communication-free control compile to tell partition-induced failures from code generation's own).",
    technique="deterministic simulation: seeded schedule + perturbation search on a simulated MPI, reference-model oracle, minimised replay files"),
+ "C09": dict(
+   engine="E1-SimMPI",
+   category="exploration",
+   text="Same simulated ranks and workload as C08, stopped after number_distributed_tags; the DistributedGraphPart contract (exactly-one producer, reads only what is available, no communication nodes in parts, sent names are outputs, received names are not), acyclicity of the global part graph, existence of one global order of communication rounds consistent with every rank's part chain, verify_distributed_partition accepting, and tag numbering agreement are evaluated by a reflective walker on what every rank returned, under seeded rank stalls and seeded fold order/bracketing of the commutative allreduce. Interpreter hash seeds differing between ranks are covered by C17's fleet (every rank's partition text must be identical in every interpreter).",
+   design_ref="DESIGN.md section 5 (C09)",
+   note="Trusted: SimMPI collective semantics (mpi4py pickle-based methods); the reflective walker; invariant 5 is deliberately weaker than the implementation's exact batch numbers. Thread actors share one interpreter: per-rank hash seeds are not varied here (see C17).",
+   technique="deterministic simulation: seeded collective schedules and reduction orders on a simulated MPI, invariants over all ranks' returned partitions"),
+ "C10": dict(
+   engine="E1-SimMPI",
+   category="fault_enumeration",
+   text="For every sampled valid multi-rank program: the fault-free run, EVERY single communication fault (drop / duplicate / retag / redirect / self on the send and on the receive side, a matched self-loop, a dependency closing a cross-rank cycle) at EVERY live communication operation, and seeded fault pairs. All ranks run find_distributed_partition + verify_distributed_partition on SimMPI under a seeded schedule; per rank the outcome is returned / raised / blocked-forever. The expectation comes from an independent communication model of the built graphs, so cancelling faults must succeed and a correct program must never be rejected.",
+   design_ref="DESIGN.md sections 4.2, 4.3, 5 (C10)",
+   note="Trusted: the communication model as definition of well-formed; the diagnostic family; the rule 'at least one affected rank raises a diagnostic, nobody raises anything else, not everybody returns; a cycle is raised on every rank'. Programs are sampled; faults per program are enumerated.",
+   technique="deterministic simulation with fault injection: enumerated program-level communication faults executed on a simulated MPI, per-rank protocol outcome vs an independent model"),
+ "C17": dict(
+   engine="E2-fleet",
+   category="exploration",
+   text="The 'system' is the interpreter population: sessions of 3-4 real child interpreters (ASLR off, distinct PYTHONHASHSEED incl. 0, 1 and large values, seeded heap prelude before imports, seeded junk-graph allocation history, per-interpreter batch order) each produce, twice at different points of their life, text records for a batch of single-rank programs (loopy kernel key + canonical dump, OpenCL and C source, bound-argument order, generated Python source) and multi-rank programs (per simulated rank: part structure, names, receive/send order, canonical forms of part expressions, overall output order, integers from number_distributed_tags, keys of the part kernels; SimMPI seed equal across interpreters). Oracle: byte equality across all interpreters and both productions.",
+   design_ref="DESIGN.md sections 3, 5 (C17)",
+   note="Trusted: the canonical printer (sets sorted, ordered results in order); loopy's code generation is inside the compared pipeline; distinct fingerprints and differing plain-set iteration orders are measured to show that the fleet members do differ.",
+   technique="deterministic simulation of an interpreter population: seeded hash seeds / heaps / allocation histories, byte-for-byte comparison of emitted records, replay by re-launching the two interpreters"),
+ "C18": dict(
+   engine="E2-fleet",
+   category="exploration",
+   text="Same histories as C04 with the PytatoKeyBuilder key observed per object: keys of graphs with the same canonical form must agree across interpreters with different hash seeds, across independent rebuilds, before/after pickling (including blobs unpickled in a crashed-and-restarted interpreter), whether or not hash() was forced first, and when recomputed by a fresh key builder; keys of graphs whose canonical forms differ (all pairs of live objects, including orig-vs-single-field-mutant pairs and wrapped data differing in one element / in dtype with identical bytes / in shape with identical bytes) must differ.",
+   design_ref="DESIGN.md section 5 (C18)",
+   note="Trusted: the reflective walker in content mode as definition of 'structurally equal'; scalar-type leniency (2.0 vs numpy.float64(2.0)) in the must-differ direction only. The injectivity half over generated pairs has no history dimension and is reported under its own counters.",
+   technique="deterministic simulation of an interpreter population: seeded histories with pickle transfer and restarts, key agreement/injectivity oracle, minimised replay files"),
 }
 
 def cmd(pid, tier):
